@@ -72,6 +72,15 @@ func VerifH_C16_KeySwitch() {
 					cks.KeySwitch(ct, agg, out)
 					vAssert(out.Scale.Cmp(ct.Scale) == 0 && out.IsBatched == ct.IsBatched && out.LogDimensions == ct.LogDimensions && out.IsNTT == ct.IsNTT, tag+"-collective-key-switch-hands-over-the-metadata")
 					vAssertNoiseFree(rQ, vDecrypt(c, c.DecOut, out), want, params.NTTFlag(), 30, tag+"-collective-key-switch-preserves-the-message")
+					// a receiver allocated at another level is brought to the level of the input
+					if level < params.MaxLevel() {
+						big := rlwe.NewCiphertext(params, 1, params.MaxLevel())
+						cks.KeySwitch(ct, agg, big)
+						vAssert(big.Level() == level, tag+"-receiver-takes-the-level-of-the-input")
+						if big.Level() == level {
+							vAssertNoiseFree(rQ, vDecrypt(c, c.DecOut, big), want, params.NTTFlag(), 30, tag+"-collective-key-switch-into-a-larger-receiver-preserves-the-message")
+						}
+					}
 					if level == 0 {
 						break
 					}
